@@ -2,6 +2,7 @@ package main
 
 import (
 	"fmt"
+	"go/constant"
 	"go/token"
 	"go/types"
 	"reflect"
@@ -120,7 +121,7 @@ func checkC10(c *Ctx) {
 	c.MinCount("R10.2", 10)
 	c.MinCount("R10.3", 5)
 	c.MinCount("R10.4", 1)
-	c.MinCount("R10.5", 10)
+	c.MinCount("R10.5", 4)
 	c.DecidedClause("every scalar field of the resulting configuration (keys, analog mappings per type, defaults, colours, identifier, collision mode, exit sequence) is computed from exactly the TOML field(s) that should determine it (backward slice over SSA incl. one level of control sources at phis); every TOML leaf field reaches some destination; the runtime's reads of config.Analog per mapping type are a subset of what the parser writes for that type")
 	c.DecidedClause("notes, controller numbers, channel offsets, velocity, default channel and default mapping are range-checked before they are narrowed/stored; actions, mapping types and collision modes are looked up in their Supported* table with the miss edge returning an error; DisallowUnknownFields precedes Decode; every error return returns the zero Config")
 	c.UndecidedClause("go-toml's decoding of each TOML spelling into the struct; equality of whole configurations; map iteration order effects")
@@ -312,6 +313,38 @@ func ruleFieldCorrespondenceFor(c *Ctx, pf *parserFacts, leaves map[*types.Var]s
 		for _, fs := range stores {
 			dest := typ + "." + fs.Field.Name()
 			data, ctl := sourcesOf(pf, fs.Val, leaves)
+			if _, isConst := fs.Val.(*ssa.Const); isConst && fs.Store.Block() != fs.Lit.Block() {
+				// a constant assigned to the field under a condition (entry.Bidirectional = true inside `if x != nil`): what the
+				// conditions between the literal and the store read decides the field
+				vw := pf.view(fs.Store.Parent())
+				outer := map[*ssa.If]bool{}
+				for _, a := range vw.GuardsAt(fs.Lit.Block()) {
+					outer[a.Instr] = true
+				}
+				cons := consumers(fs.Lit)
+				for _, a := range vw.GuardsAt(fs.Store.Block()) {
+					if a.Instr == nil || outer[a.Instr] {
+						continue
+					}
+					// a guard decides the field only if its other branch also delivers the entry (then with the zero value);
+					// a validation whose other branch is an error return decides nothing
+					gb := a.Instr.Block()
+					other := gb.Succs[1]
+					if !a.Taken {
+						other = gb.Succs[0]
+					}
+					if len(cons) > 0 && !reachesAvoiding(other, cons, nil, nil) {
+						continue
+					}
+					d2, c2 := sourcesOf(pf, a.Instr.Cond, leaves)
+					for k := range d2 {
+						ctl[k] = true
+					}
+					for k := range c2 {
+						ctl[k] = true
+					}
+				}
+			}
 			for k := range data {
 				reached[k] = true
 			}
@@ -323,7 +356,7 @@ func ruleFieldCorrespondenceFor(c *Ctx, pf *parserFacts, leaves map[*types.Var]s
 				continue // container-valued fields (maps/slices of structs): covered through their elements
 			}
 			seenDest[dest] = true
-			key := fmt.Sprintf("config.ParseData/%s<-sources[%s]", dest, pf.litContext(fs.Lit))
+			key := fmt.Sprintf("config.ParseData/%s<-sources[%s]", dest, pf.storeContext(fs))
 			pos := c.P.Pos(fs.Store.Pos())
 			allowed := map[string]bool{}
 			for _, w := range want {
@@ -335,7 +368,7 @@ func ruleFieldCorrespondenceFor(c *Ctx, pf *parserFacts, leaves map[*types.Var]s
 					bad = fmt.Sprintf("is computed from %q", k)
 				}
 			}
-			if dest == "Analog.Bidirectional" && bad == "" && len(data) > 0 && pf.litContext(fs.Lit) != "action" {
+			if dest == "Analog.Bidirectional" && bad == "" && len(data) > 0 && pf.storeContext(fs) != "action" {
 				// (for actions the zero value "" is not an accepted action - R10.3 - so value and presence coincide)
 				bad = fmt.Sprintf("is computed from the VALUE of %v; the PRESENCE of the negative field in the file (a nil test of the optional pointer) must decide it, otherwise a stated `..._negative = 0` is silently dropped", setKeys(data))
 			}
@@ -418,6 +451,25 @@ func (pf *parserFacts) inputIDStores() []fieldStore {
 				continue
 			}
 			for _, rr := range *fa.Referrers() {
+				// the identifier stored as a whole: a local input.InputID built field by field earlier
+				if st, ok := rr.(*ssa.Store); ok && st.Addr == ssa.Value(fa) {
+					if ld, ok := st.Val.(*ssa.UnOp); ok && ld.Op == token.MUL {
+						if loc, ok := ld.X.(*ssa.Alloc); ok {
+							for _, lr := range *loc.Referrers() {
+								lfa, ok := lr.(*ssa.FieldAddr)
+								if !ok {
+									continue
+								}
+								for _, r3 := range *lfa.Referrers() {
+									if st2, ok := r3.(*ssa.Store); ok && st2.Addr == ssa.Value(lfa) {
+										out = append(out, fieldStore{lit, fieldOfAddr(lfa), st2.Val, st2})
+									}
+								}
+							}
+						}
+					}
+					continue
+				}
 				fa2, ok := rr.(*ssa.FieldAddr)
 				if !ok {
 					continue
@@ -455,8 +507,13 @@ func ruleReaderWriterAgreement(c *Ctx, pf *parserFacts) {
 	}
 	// parser writes per type
 	writes := map[string]map[string]bool{}
+	shared := map[string]bool{} // fields every case gets: stored before the type switch into one entry the cases fill in
 	for _, fs := range pf.fieldStores("Analog") {
-		ctx := pf.litContext(fs.Lit)
+		ctx := pf.storeContext(fs)
+		if ctx == "-" {
+			shared[fs.Field.Name()] = true
+			continue
+		}
 		if writes[ctx] == nil {
 			writes[ctx] = map[string]bool{}
 		}
@@ -465,6 +522,9 @@ func ruleReaderWriterAgreement(c *Ctx, pf *parserFacts) {
 	var parserCases []string
 	for k := range writes {
 		parserCases = append(parserCases, k)
+		for f := range shared {
+			writes[k][f] = true
+		}
 	}
 	// runtime reads per case region and before the switch
 	fn := dv.fn["handleABSEvent"]
@@ -597,6 +657,13 @@ func ruleBounds(c *Ctx, pf *parserFacts) {
 		if okEdges && !b.excluded[-1] && b.hasLo && b.lo >= 0 {
 			b.excluded[-1] = true // "not found" expressed as `index < 0`
 		}
+		// "not found" kept in a flag next to the index: the store is guarded by a boolean search variable that becomes true on
+		// exactly the edges on which the index variable takes a list index, starts false where the index starts with a
+		// constant, and is carried where the index is carried
+		if isPhi && foundFlagGuards(vw, fs.Store.Block(), phi) {
+			c.OK("R10.2", key, pos, "the store is guarded by a found flag that is set on exactly the edges where the index takes a position of the mapping list")
+			continue
+		}
 		if okEdges && b.excluded[-1] {
 			c.OK("R10.2", key, pos, "-1 (not found) is rejected by a dominating check; other values are range indices of the mapping list")
 		} else {
@@ -653,8 +720,15 @@ func ruleVocabularies(c *Ctx, pf *parserFacts) {
 				continue
 			}
 			n++
-			key := fmt.Sprintf("config.ParseData/%s{%s}[%s]/in-%s", d.typ, d.field, pf.litContext(fs.Lit), d.table)
+			key := fmt.Sprintf("config.ParseData/%s{%s}[%s]/in-%s", d.typ, d.field, pf.storeContext(fs), d.table)
 			ok, why := checkVal(fs.Val, fs.Store.Block(), d.table, nil)
+			if !ok {
+				// the entry is filled in first and checked afterwards: every way from the store to a point where the entry is
+				// used passes a test `table[entry.field]` of the stored field whose failing branch does not deliver the entry
+				if w, found := checkedAfterStore(pf, fs, d.table); found {
+					ok, why = true, w
+				}
+			}
 			if ok {
 				c.OK("R10.3", key, c.P.Pos(fs.Store.Pos()), why)
 			} else {
@@ -699,7 +773,7 @@ func ruleUnknownFields(c *Ctx, pf *parserFacts) {
 	var decodeSite *ssa.Call
 	var decoder ssa.Value
 	var disallow *ssa.Call
-	for _, b := range pf.fn.Blocks {
+	for _, b := range pf.regionBlocks() { // ParseData or a stage function of the parser
 		for _, in := range b.Instrs {
 			call, ok := in.(*ssa.Call)
 			if !ok {
@@ -708,16 +782,40 @@ func ruleUnknownFields(c *Ctx, pf *parserFacts) {
 			callee := call.Call.StaticCallee()
 			switch {
 			case isToml(callee, "Decode"):
+				if _, isParam := call.Call.Args[0].(*ssa.Parameter); isParam {
+					continue // inside a decode helper: seen from its call site, where the decoder is created
+				}
 				decodeSite, decoder = call, call.Call.Args[0]
 			case isToml(callee, "DisallowUnknownFields"):
 				disallow = call
 			case callee != nil && pf.p.OwnedFunc(callee) && callee.Blocks != nil:
 				for _, hb := range callee.Blocks {
 					for _, hi := range hb.Instrs {
-						if hc, ok := hi.(*ssa.Call); ok && isToml(hc.Call.StaticCallee(), "Decode") {
-							for pi, prm := range callee.Params {
-								if hc.Call.Args[0] == ssa.Value(prm) && pi < len(call.Call.Args) {
-									decodeSite, decoder = call, call.Call.Args[pi]
+						hc, ok := hi.(*ssa.Call)
+						if !ok {
+							continue
+						}
+						// Decode on the helper's parameter: a *toml.Decoder, or an interface the decoder is passed as
+						var recv ssa.Value
+						switch {
+						case isToml(hc.Call.StaticCallee(), "Decode"):
+							recv = hc.Call.Args[0]
+						case hc.Call.IsInvoke() && hc.Call.Method.Name() == "Decode":
+							recv = hc.Call.Value
+						}
+						for pi, prm := range callee.Params {
+							if recv == ssa.Value(prm) && pi < len(call.Call.Args) {
+								arg := call.Call.Args[pi]
+								for k := 0; k < 3; k++ {
+									switch y := arg.(type) {
+									case *ssa.MakeInterface:
+										arg = y.X
+									case *ssa.ChangeInterface:
+										arg = y.X
+									}
+								}
+								if strings.Contains(arg.Type().String(), "go-toml") && strings.HasSuffix(arg.Type().String(), ".Decoder") {
+									decodeSite, decoder = call, arg
 								}
 							}
 						}
@@ -747,28 +845,53 @@ func instrBefore(a, b ssa.Instruction) bool {
 	return false
 }
 
-// ruleRejectionTotal: R10.5 every error return returns the zero Config.
+// ruleRejectionTotal: R10.5 every error return returns the zero Config: in ParseData and in every stage function of the
+// parser that returns (Config, error) and whose results ParseData returns as they are.
 func ruleRejectionTotal(c *Ctx, pf *parserFacts) {
 	n := 0
-	for _, b := range pf.fn.Blocks {
-		r, ok := b.Instrs[len(b.Instrs)-1].(*ssa.Return)
-		if !ok || len(r.Results) != 2 {
-			continue
+	seen := map[*ssa.Function]bool{}
+	var visit func(fn *ssa.Function)
+	visit = func(fn *ssa.Function) {
+		if seen[fn] {
+			return
 		}
-		n++
-		key := fmt.Sprintf("config.ParseData/return#%d", n)
-		pos := c.P.Pos(r.Pos())
-		errNil := false
-		if k, isK := r.Results[1].(*ssa.Const); isK && k.Value == nil {
-			errNil = true
-		}
-		_, cfgZero := r.Results[0].(*ssa.Const)
-		if errNil {
-			c.Check(!cfgZero, "R10.5", key+"(success)", pos, "returns the built configuration with a nil error", "success return hands out the zero Config")
-		} else {
-			c.Check(cfgZero, "R10.5", key+"(error)", pos, "error return hands out the zero Config", "an error is returned together with a partly built configuration")
+		seen[fn] = true
+		name := "config." + fn.Name()
+		k := 0
+		for _, b := range fn.Blocks {
+			r, ok := b.Instrs[len(b.Instrs)-1].(*ssa.Return)
+			if !ok || len(r.Results) != 2 || b == fn.Recover {
+				continue
+			}
+			n++
+			k++
+			key := fmt.Sprintf("%s/return#%d", name, k)
+			pos := c.P.Pos(r.Pos())
+			// both results of one call of a parser stage, returned as they are
+			if e0, ok := r.Results[0].(*ssa.Extract); ok {
+				if e1, ok := r.Results[1].(*ssa.Extract); ok && e0.Tuple == e1.Tuple && e0.Index == 0 && e1.Index == 1 {
+					if call, ok := e0.Tuple.(*ssa.Call); ok {
+						if callee := call.Call.StaticCallee(); callee != nil && pf.region[callee] && callee.Blocks != nil {
+							c.OK("R10.5", key+"(forwarded)", pos, "returns the results of "+callee.Name()+" as they are")
+							visit(callee)
+							continue
+						}
+					}
+				}
+			}
+			errNil := false
+			if k, isK := r.Results[1].(*ssa.Const); isK && k.Value == nil {
+				errNil = true
+			}
+			_, cfgZero := r.Results[0].(*ssa.Const)
+			if errNil {
+				c.Check(!cfgZero, "R10.5", key+"(success)", pos, "returns the built configuration with a nil error", "success return hands out the zero Config")
+			} else {
+				c.Check(cfgZero, "R10.5", key+"(error)", pos, "error return hands out the zero Config", "an error is returned together with a partly built configuration")
+			}
 		}
 	}
+	visit(pf.fn)
 	_ = token.NoPos
 }
 
@@ -837,4 +960,134 @@ func ruleEvCodeProvenance(c *Ctx, pf *parserFacts) {
 	if n == 0 {
 		c.Undec("R10.8", "config.TomlKeyToEvCode/success-returns", c.P.Pos(fn.Pos()), "no success return found")
 	}
+}
+
+// foundFlagGuards: some guard that holds at block b is `F` (taken) or `!F` (not taken) for a boolean phi F that runs parallel
+// to the index phi idx: same block, and edge by edge F is true where idx takes a non-negative list index, false where idx
+// takes a constant, and F itself where idx is carried.
+func foundFlagGuards(vw *FnView, b *ssa.BasicBlock, idx *ssa.Phi) bool {
+	for _, a := range vw.GuardsAt(b) {
+		if a.Instr == nil {
+			continue
+		}
+		v, want := a.Instr.Cond, a.Taken
+		for i := 0; i < 3; i++ {
+			if u, ok := v.(*ssa.UnOp); ok && u.Op == token.NOT {
+				v, want = u.X, !want
+			}
+		}
+		f, ok := v.(*ssa.Phi)
+		if !ok || !want || f.Block() != idx.Block() || len(f.Edges) != len(idx.Edges) {
+			continue
+		}
+		parallel, sets := true, 0
+		for k := range f.Edges {
+			fe, ve := f.Edges[k], idx.Edges[k]
+			switch {
+			case fe == ssa.Value(f):
+				parallel = parallel && ve == ssa.Value(idx)
+			case isBoolConst(fe, false):
+				_, isK := ve.(*ssa.Const)
+				parallel = parallel && isK
+			case isBoolConst(fe, true):
+				_, isK := ve.(*ssa.Const)
+				parallel = parallel && !isK && ve != ssa.Value(idx) && nonNegativeIndex(ve)
+				sets++
+			default:
+				parallel = false
+			}
+		}
+		if parallel && sets > 0 {
+			return true
+		}
+	}
+	return false
+}
+
+func isBoolConst(v ssa.Value, want bool) bool {
+	k, ok := v.(*ssa.Const)
+	return ok && k.Value != nil && k.Value.Kind() == constant.Bool && constant.BoolVal(k.Value) == want
+}
+
+// checkedAfterStore: see ruleVocabularies.
+func checkedAfterStore(pf *parserFacts, fs fieldStore, table string) (string, bool) {
+	cons := consumers(fs.Lit)
+	if len(cons) == 0 {
+		return "", false
+	}
+	fa, ok := fs.Store.Addr.(*ssa.FieldAddr)
+	if !ok {
+		return "", false
+	}
+	// exactly one store to this field of the literal on the way (a second one could follow the test)
+	for _, r := range *fs.Lit.Referrers() {
+		if fa2, ok := r.(*ssa.FieldAddr); ok && fa2.Field == fa.Field {
+			for _, rr := range *fa2.Referrers() {
+				if st, ok := rr.(*ssa.Store); ok && st != fs.Store && fs.Store.Block().Dominates(st.Block()) {
+					return "", false
+				}
+			}
+		}
+	}
+	fn := fs.Store.Parent()
+	for _, b := range fn.Blocks {
+		ifi, ok := b.Instrs[len(b.Instrs)-1].(*ssa.If)
+		if !ok || !(fs.Store.Block().Dominates(b)) {
+			continue
+		}
+		cond, pass := ifi.Cond, 0
+		if u, isNot := cond.(*ssa.UnOp); isNot && u.Op == token.NOT {
+			cond, pass = u.X, 1
+		}
+		lk, ok := cond.(*ssa.Lookup)
+		if !ok {
+			continue
+		}
+		g, isG := lk.X.(*ssa.UnOp)
+		if !isG {
+			continue
+		}
+		gl, isGl := g.X.(*ssa.Global)
+		if !isGl || gl.Name() != table {
+			continue
+		}
+		// the index is a load of that very field of the literal
+		ld, isLd := lk.Index.(*ssa.UnOp)
+		if !isLd || ld.Op != token.MUL {
+			continue
+		}
+		lfa, isFA := ld.X.(*ssa.FieldAddr)
+		if !isFA || lfa.X != fs.Lit || lfa.Field != fa.Field {
+			continue
+		}
+		// same block: the test comes after the store
+		if b == fs.Store.Block() && !instrBefore(fs.Store, ld) {
+			continue
+		}
+		passSucc, failSucc := b.Succs[pass], b.Succs[1-pass]
+		if reachesAvoiding(failSucc, cons, nil, nil) {
+			continue // the failing branch still delivers the entry
+		}
+		if reachesAvoiding(fs.Store.Block(), cons, b, passSucc) && fs.Store.Block() != b {
+			// some way from the store to a use avoids the passing edge of the test
+			if reachesAvoidingFromStore(fs.Store.Block(), cons, b, passSucc) {
+				continue
+			}
+		}
+		return "stored, then tested with " + table + "[entry." + fieldOfAddr(fa).Name() + "] before the entry can be used (the failing branch returns without it)", true
+	}
+	return "", false
+}
+
+// reachesAvoidingFromStore: like reachesAvoiding, from the successors of the store's block.
+func reachesAvoidingFromStore(from *ssa.BasicBlock, targets []*ssa.BasicBlock, cutFrom, cutTo *ssa.BasicBlock) bool {
+	for _, s := range from.Succs {
+		if from == cutFrom && s == cutTo {
+			continue
+		}
+		if reachesAvoiding(s, targets, cutFrom, cutTo) {
+			return true
+		}
+	}
+	return false
 }
